@@ -250,3 +250,35 @@ pub fn wiring_of1024() {
 harness_x!(c07_lemma_submix1024, [kani::stub(core::arch::x86_64::_mm_aesenclast_si128, crate::models::mm_aesenclast_si128)], lemma_submix1024());
 harness_x!(c07_wiring_tf1024, [kani::stub(groestl_aesni::compressor::submix, groestl_aesni::compressor::verif_incrate::submix_uf)], wiring_tf1024());
 harness_x!(c07_wiring_of1024, [kani::stub(groestl_aesni::compressor::submix, groestl_aesni::compressor::verif_incrate::submix_uf)], wiring_of1024());
+
+// ---------------------------------------------------------------- run-time dispatch
+/// Every selectable wrapper (aes / ssse3 / sse2 modules, chosen through the lazy function-pointer
+/// table from CPUID) forwards to the matching *_impl with unchanged arguments.
+pub fn dispatch_forwarding(level: u8, aes: bool) {
+    use digest::generic_array::GenericArray;
+    crate::hmacros::set_cpu(level);
+    unsafe { crate::models::CPU_AES = aes; cc::D_CALLS = 0; cc::D_WHICH = 0; }
+    let sel: u8 = any();
+    let cv64: [u8; 64] = any();
+    let cv128: [u8; 128] = any();
+    let pre = |n: usize, c: &[u8]| unsafe { let mut ok = true; let mut i = 0; while i < n { ok &= cc::UF_IN[0][i] == c[i]; i += 1; } ok };
+    let post = |n: usize, o: &[u8]| unsafe { let mut ok = true; let mut i = 0; while i < n { ok &= cc::UF_OUT[0][i] == o[i]; i += 1; } ok };
+    match sel {
+        1 => { let d: [u8; 64] = any(); let o = cc::dispatch_tf512(cv64, GenericArray::from_slice(&d)); obl!(unsafe { cc::D_WHICH == 1 && cc::D_CALLS == 1 && cc::D_PTR_OK } && pre(64, &cv64) && post(64, &o), "tf512_forwards_to_tf512_impl"); }
+        2 => { let o = cc::dispatch_of512(cv64); obl!(unsafe { cc::D_WHICH == 2 && cc::D_CALLS == 1 } && pre(64, &cv64) && post(64, &o), "of512_forwards_to_of512_impl"); }
+        3 => { let o = cc::dispatch_init512(cv64); obl!(unsafe { cc::D_WHICH == 3 && cc::D_CALLS == 1 } && pre(64, &cv64) && post(64, &o), "init512_forwards_to_init512_impl"); }
+        4 => { let d: [u8; 128] = any(); let o = cc::dispatch_tf1024(cv128, GenericArray::from_slice(&d)); obl!(unsafe { cc::D_WHICH == 4 && cc::D_CALLS == 1 && cc::D_PTR_OK } && pre(128, &cv128) && post(128, &o), "tf1024_forwards_to_tf1024_impl"); }
+        5 => { let o = cc::dispatch_of1024(cv128); obl!(unsafe { cc::D_WHICH == 5 && cc::D_CALLS == 1 } && pre(128, &cv128) && post(128, &o), "of1024_forwards_to_of1024_impl"); }
+        6 => { let o = cc::dispatch_init1024(cv128); obl!(unsafe { cc::D_WHICH == 6 && cc::D_CALLS == 1 } && pre(128, &cv128) && post(128, &o), "init1024_forwards_to_init1024_impl"); }
+        _ => {}
+    }
+}
+macro_rules! disp { ($($n:ident, $l:expr, $a:expr;)*) => {$(
+    harness_x!($n, [kani::stub(groestl_aesni::compressor::tf512_impl, groestl_aesni::compressor::verif_incrate::tf512_impl_rec),
+                    kani::stub(groestl_aesni::compressor::of512_impl, groestl_aesni::compressor::verif_incrate::of512_impl_rec),
+                    kani::stub(groestl_aesni::compressor::init512_impl, groestl_aesni::compressor::verif_incrate::init512_impl_rec),
+                    kani::stub(groestl_aesni::compressor::tf1024_impl, groestl_aesni::compressor::verif_incrate::tf1024_impl_rec),
+                    kani::stub(groestl_aesni::compressor::of1024_impl, groestl_aesni::compressor::verif_incrate::of1024_impl_rec),
+                    kani::stub(groestl_aesni::compressor::init1024_impl, groestl_aesni::compressor::verif_incrate::init1024_impl_rec)], dispatch_forwarding($l, $a));
+)*}; }
+disp! { c07_dispatch_sse2, 0, false; c07_dispatch_ssse3, 1, false; c07_dispatch_aes, 2, true; }
